@@ -324,6 +324,7 @@ struct ExecCtx {
   bool verbose;
   int strategy;
   bool tso = false; // engine flavour: x86-TSO store buffers instead of view-based stale reads
+  uint64_t exec = 0; // index of this execution within the run of its configuration
   xrt::RunCfg runcfg(uint64_t salt = 0) const {
     xrt::RunCfg c;
     c.seed = mix64(seed, salt);
@@ -445,6 +446,7 @@ inline int scenario_main(int argc, char** argv, const ScenarioDef& def) {
     counters().c.clear();
     for (uint64_t i = args.from; i < args.from + args.execs; ++i) {
       ExecCtx ctx{mix64(mix64(args.seed, cfg_salt), i), args.weak, args.window, args.freeze, args.verbose, args.strategy, args.tso};
+      ctx.exec = i;
       xrt::set_context(def.name, cfg.c_str(), args.seed, i);
       xrt::clear_violation();
       ExecOut out;
